@@ -40,4 +40,14 @@ var checks = map[string]checkCfg{
 		Rule:        "cases are rapid-generated histories of CREATE/WRITE/READ/SETATTR(size)/GETATTR on <=3 files with adversarial offsets/counts under a cache and transfer-size configuration; non-trivial = a READ that was checked after >=2 mutations of its file of which at least one was an overlap, a hole or a shrink-then-extend; distinct = FNV-64 of the canonical case JSON, unioned over shards",
 		Assumptions: baseAssumptions,
 		Phases:      []phase{rp("rapid", "^TestC01$", 6, 1500, 16, 12000)}},
+	"C03": {Level: "exploration", Technique: "bounded-exhaustive enumeration + rapid property vs pre/post backend snapshot",
+		Rule:        "phase enum enumerates every combination of existing object kind {none,file with data,empty dir,non-empty dir,symlink to file,dangling symlink} x createmode x all 64 sattr3 set-flag combinations x size {0,3,>len} x EXCLUSIVE verifier scenario {same,other,not exclusive} (with and without warm caches); phase rapid draws data contents, sizes, cache settings and preceding lookups; non-trivial = the name already exists and the object carries data or children; distinct = FNV-64 of the case JSON",
+		Assumptions: baseAssumptions,
+		Phases: []phase{
+			{Name: "enum", Variant: "plain", Tests: "^TestC03$", QuickShards: 4, ThoroughShards: 8},
+			rp("rapid", "^TestC03Rapid$", 4, 1500, 16, 20000)}},
+	"C02": {Level: "exploration", Technique: "rapid histories vs POSIX tree model + cached-vs-uncached differential",
+		Rule:        "cases are rapid-generated sequential histories of LOOKUP/CREATE/MKDIR/SYMLINK/REMOVE/RMDIR/RENAME/READDIR(PLUS)/GETATTR/READLINK over names {a,b,c} to depth 3, addressed through every handle ever issued (stale ones included); each history runs under the all-off baseline and k cached configurations (quick 3, thorough 6 of 15); non-trivial = a read-type request on a name or directory affected by an earlier successful mutation, executed under a configuration with at least one cache on; distinct = FNV-64 of the case JSON",
+		Assumptions: append([]string{"documented latitude L1-L7 of DESIGN.md §5 C02 (REMOVE of empty dir, UNCHECKED/EXCLUSIVE on existing objects, error code identity not compared against the model, path-bound handles)"}, baseAssumptions...),
+		Phases:      []phase{rp("rapid", "^TestC02$", 6, 1500, 16, 10000)}},
 }
